@@ -59,6 +59,7 @@ type gengineWrapper struct {
 }
 
 func (gw *gengineWrapper) clearInjected(keys ...string) {
+	verifPoint("pool.cleanup", gw.tag)
 	if gw == nil || gw.rulebuilder == nil || gw.rulebuilder.Dc == nil {
 		return
 	}
@@ -608,6 +609,7 @@ func (gp *GenginePool) ExecuteRulesWithSpecifiedEM(reqName string, req interface
 	}
 	//release resource
 	defer func() {
+		verifPoint("pool.cleanup", gw.tag)
 		gw.rulebuilder.Dc.Del(reqName, respName)
 		gp.putGengineLocked(gw)
 	}()
